@@ -262,7 +262,13 @@ class TypeDeclarationStatement(Statement):
         if isinstance(self.parent, Function) and self.parent.name in self.entity_decls:
             assert self.parent.typedecl is None, repr(self.parent.typedecl)
             self.parent.typedecl = self
-            self.ignore = True
+            if len(self.entity_decls) == 1:
+                self.ignore = True
+            else:
+                # The statement declares other entities as well: only the
+                # declaration of the function itself moves to the
+                # FUNCTION statement.
+                self.entity_decls.remove(self.parent.name)
         if isinstance(self, Type):
             self.name = self.selector[1].lower()
             assert is_name(self.name), repr(self.name)
